@@ -151,7 +151,7 @@ def case_model(c):
     m["now"] = dtj(b)
     if b.tzinfo is not None:
         m["nowOff"] = int(b.utcoffset().total_seconds())
-    today = c.get("today") or D.today()
+    today = c.get("today") or RUN_TODAY
     m["today"] = dtj(today)
     tz = st.get("TIMEZONE", "local")
     m["tz"] = tz
@@ -178,6 +178,11 @@ _ddp_cache = {}
 class _ClockMeta(type):
     def __instancecheck__(cls, obj):
         return isinstance(obj, _dt.datetime)
+
+
+# the calendar day of this run, at noon: what custom-format cases without a clock of their own see as "now" (library and model alike), so that a
+# run crossing midnight stays consistent with itself
+RUN_TODAY = _dt.datetime.combine(_dt.date.today(), _dt.time(12, 0))
 
 
 def fake_clock(fixed):
@@ -233,6 +238,8 @@ def lib_gdd(c):
         kw["region"] = c["region"]
     if c.get("givenOrder"):
         kw["use_given_order"] = True
+    if c.get("clock") is None and c.get("fmts"):
+        c = dict(c, clock=c.get("today") or RUN_TODAY)      # custom formats read the system clock: pin it for the run (see RUN_TODAY)
     try:
         if c.get("clock") is not None:
             with clock_at(c["clock"]):
